@@ -229,6 +229,15 @@ func runClientBehaviour(steps []cStep, res *Result, dev bool) (string, string) {
 			if d != "" {
 				return where + ": " + d, tagOrInfra(d, "C12")
 			}
+			if !dev {
+				// the call has returned: the application uses its message object and its payload buffer for something else
+				pl := m.Payload()
+				for i := range pl {
+					pl[i] = 'Z'
+				}
+				m.SetTopic([]byte("zz/reused"))
+				m.SetPacketID(0xfff0)
+			}
 		case "appsubscribe":
 			m := message.NewSubscribeMessage()
 			for _, f := range a.Fs {
@@ -237,6 +246,15 @@ func runClientBehaviour(steps []cStep, res *Result, dev bool) (string, string) {
 			if d := call(func() error { return r.cl.Subscribe(m, r.onComplete(a.R), r.onPublish(a.R)) }); d != "" {
 				return where + ": " + d, tagOrInfra(d, "C12")
 			}
+			if !dev {
+				// the call has returned: the request is what was sent, whatever the application does with its message object
+				// afterwards (here: it builds its next request in it)
+				for _, f := range a.Fs {
+					m.RemoveTopic([]byte(f))
+				}
+				m.AddTopic([]byte("zz/reused"), 0)
+				m.SetPacketID(0xfff0)
+			}
 		case "appunsubscribe":
 			m := message.NewUnsubscribeMessage()
 			for _, f := range a.Fs {
@@ -244,6 +262,13 @@ func runClientBehaviour(steps []cStep, res *Result, dev bool) (string, string) {
 			}
 			if d := call(func() error { return r.cl.Unsubscribe(m, r.onComplete(a.R)) }); d != "" {
 				return where + ": " + d, tagOrInfra(d, "C12")
+			}
+			if !dev {
+				for _, f := range a.Fs {
+					m.RemoveTopic([]byte(f))
+				}
+				m.AddTopic([]byte("zz/reused"))
+				m.SetPacketID(0xfff0)
 			}
 		case "appping":
 			if err := r.cl.Ping(r.onComplete(a.R)); err != nil {
